@@ -44,6 +44,31 @@ def _guard_compares_desc(packer_mod):
     return kinds.pop()
 
 
+def _desc_eq_is_structural(base):
+    """The registration guards compare descriptors with != : that is a comparison of the DEFINITIONS (name and ordered
+    (type, name) field list) only if RecordDescriptor.__eq__ is.  Determined on descriptors built for the purpose:
+    two whose identifiers coincide, two of one name with different fields, two equal definitions built separately."""
+    RD = base.RecordDescriptor
+    c1 = RD("fact/c", [("stringlist", "a"), ("string", "b")])
+    c2 = RD("fact/c", [("string", "a"), ("string", "listb")])
+    a1 = RD("fact/a", [("string", "s"), ("varint", "n")])
+    a2 = RD("fact/a", [("string", "s")])
+    a3 = RD("fact/a", [("varint", "n"), ("string", "s")])
+    a1b = RD("fact/a", [("string", "s"), ("varint", "n")])
+    b1 = RD("fact/b", [("string", "s"), ("varint", "n")])
+    if c1.identifier != c2.identifier:
+        raise Unsupported("the probe descriptors no longer share an identifier (hash input changed?)")
+    different = [(c1, c2), (a1, a2), (a1, a3), (a1, b1), (a2, a3)]
+    same = [(a1, a1b), (c1, c1)]
+    ok_diff = all((x != y) is True and (x == y) is False and (y != x) is True for x, y in different)
+    ok_same = all((x == y) is True and (x != y) is False and hash(x) == hash(y) for x, y in same)
+    if ok_diff and ok_same:
+        return True
+    if ok_same:
+        return False           # some different definitions compare equal
+    raise Unsupported("RecordDescriptor.__eq__: equal definitions built separately do not compare equal")
+
+
 def _hash_input_shape(base):
     """calc_descriptor_hash: data = name + "".join(f"{n}{t}" for t, n in fields); sha256; first 4 bytes; big."""
     fn = base.RecordDescriptor.calc_descriptor_hash
@@ -134,7 +159,7 @@ def _pack_is_config_free(base, packer_mod):
 def gen_packer():
     import flow.record.base as base
     import flow.record.packer as packer
-    guard = _guard_compares_desc(packer)
+    guard = _guard_compares_desc(packer) and _desc_eq_is_structural(base)
     order = _hash_input_shape(base)
     out = HEADER
     out += "From Coq Require Import List Bool NArith ZArith String.\nFrom Coq Require Import Init.Byte.\n"
